@@ -923,7 +923,16 @@ class Consumer(object):
         if self._msg_block_d:
             # We are still working through the last block of messages...
             # We have to wait until it's done, then process this response
-            self._msg_block_d.addCallback(lambda _: self._handle_fetch_response(responses))
+            def _handle_parked_response(_):
+                # Same error handling as for a response that was not parked: a
+                # fault while reading it must lead to a retry (or to the
+                # failure of start()), not to a consumer that silently idles
+                try:
+                    self._handle_fetch_response(responses)
+                except Exception:
+                    self._handle_fetch_error(Failure())
+
+            self._msg_block_d.addCallback(_handle_parked_response)
             return
 
         # No ongoing processing, great, let's get some started.
